@@ -82,6 +82,10 @@ Definition rust_lines (s : string) : list string := rust_lines_aux (split_nl s).
 Definition first_line (s : string) : string :=
   match rust_lines s with x :: _ => x | [] => s end.
 
+(* s.split('\n').next().unwrap_or(&s) *)
+Definition first_split (s : string) : string :=
+  match split_nl s with x :: _ => x | [] => s end.
+
 (* ------------------------------------------------------------------ comments of an AST *)
 (* A `trailing` field holds one comment, or several joined by "\n" (expressions.rs:1997). *)
 Definition trailing_comments (t : option string) : list string :=
@@ -406,8 +410,10 @@ Section Fmt.
       end.
 
     (* `first_line_of_right` + "\n" + `remaining_lines` (formatter.rs:467-479) as a string *)
+    (* since the F55 repair (fix: the formatter keeps a carriage return ...) both pieces come from
+       `split('\n')`, not `lines()`: no "\r" is stripped *)
     Definition relined (s : string) : string :=
-      first_line s +++ nl +++ sjoin nl (tl (rust_lines s)).
+      first_split s +++ nl +++ sjoin nl (tl (split_nl s)).
 
     (* format_binary_op_multiline (432-518) *)
     Definition binop_doc (op : binop) (l r : expr) (i : nat) : doc :=
@@ -417,7 +423,7 @@ Section Fmt.
       if is_via_like op && is_lambda r then
         let right := wrap_parens rp (rec r i) in
         let rs := render right in
-        let first_line_combined := render left +++ " " +++ op_str +++ " " +++ first_line rs in
+        let first_line_combined := render left +++ " " +++ op_str +++ " " +++ first_split rs in
         if (i + String.length first_line_combined <=? w)%nat then
           if contains_nl rs then
             (* Rust re-assembles the right operand from `lines()`; when that is the identity
